@@ -86,6 +86,13 @@ class Check:
             if bad:
                 self.proof['build_ok'] = False
                 self.proof['build_output'] += ' axiom audit: ' + '; '.join(bad)
+            if self.tier == 'thorough' and self.proof['build_ok']:
+                # independent re-check of the compiled property module by Lean's external checker
+                okc, outc = common.leanchecker(self.lean_module)
+                self.proof['leanchecker'] = 'ok' if okc else outc[-800:]
+                if not okc:
+                    self.proof['build_ok'] = False
+                    self.proof['build_output'] += ' leanchecker: ' + outc[-800:]
         return self.proof['build_ok']
 
     # ----- dynamic part: to be provided ----------------------------------------------------
@@ -179,6 +186,7 @@ class Check:
             'theorems': self.theorems,
             'axioms_per_theorem': self.proof.get('axioms', {}),
             'source_audit_hits': self.proof.get('audit_hits', []),
+            'leanchecker': self.proof.get('leanchecker', 'not run in this tier'),
             'tie_G': self.tie_g,
             'known_findings_hit': self.known_hits,
         })
@@ -218,7 +226,7 @@ class LockCheck(Check):
     components = ['pess', 'opt', 'mcs']
     categories = []         # monitor message prefixes relevant to this property
     stuck_relevant = False  # end=stuck counts as a violation of this property
-    counts = {'quick': 400, 'thorough': 6000}
+    counts = {'quick': 400, 'thorough': 45000}
     corpus = 'lock'
     assumptions = [
         'shared-counter capacity: fewer simultaneous requests than the field width (2^62 / 2^30 / 2^15)',
@@ -315,6 +323,21 @@ class LockCheck(Check):
         scen = self.corpus_scenarios()
         scen.update(self.scenarios(n, self.seed))
         results, stats = self.run_batch(exe, scen)
+        if self.tier == 'thorough':
+            # further seeds, and a batch on an AddressSanitizer + UBSan build of the same harness
+            for extra in (1, 2):
+                more = self.scenarios(n // 2, self.seed + 7919 * extra, prefix=f'x{extra}')
+                r2, st2 = self.run_batch(exe, more)
+                scen.update(more); results.update(r2); stats = common.merge_stats(stats, st2)
+            try:
+                exe_san = common.build_harness('lock', sanitize=True)
+                san = self.scenarios(max(40, n // 4), self.seed + 104729, prefix='asan')
+                san.update({'asan-' + k: v.replace('SCEN ' + k, 'SCEN asan-' + k, 1) for k, v in self.corpus_scenarios().items()})
+                r3, st3 = self.run_batch(exe_san, san)
+                scen.update(san); results.update(r3); stats = common.merge_stats(stats, st3)
+                self.cov['sanitizer_scenarios'] = len(r3)
+            except FrameworkError as e:
+                self.cov['sanitizer_build_error'] = str(e)[-500:]
         failures, mismatches = [], []
         ok_count = 0
         for sid in sorted(results):
@@ -324,6 +347,9 @@ class LockCheck(Check):
                 failures.append((r['steps'], sid, msg))
             if r['corr'] != 'ok':
                 mismatches.append({'scenario_id': sid, 'detail': r['corr'][:500]})
+            elif not msg and (r['end'].startswith('crash') or r['end'] == 'hang'):
+                mismatches.append({'scenario_id': sid, 'detail': 'the implementation ended with ' + r['end'] +
+                                   ' under the harness (the model finishes this scenario)'})
             if r['corr'] == 'ok' and r['mon'] == 'ok' and r['end'] == 'ok' and r.get('hb', 'ok') == 'ok':
                 ok_count += 1
         missing = [sid for sid in scen if sid not in results]
@@ -514,7 +540,7 @@ class ThreadCheck(LockCheck):
     seq_share = 0.0
     long_share = 0.08
     deep_share = 0.0
-    counts = {'quick': 360, 'thorough': 6000}
+    counts = {'quick': 360, 'thorough': 30000}
     corpus = 'thread'
     finding_tags = {}
     assumptions = [
@@ -557,6 +583,24 @@ class ThreadCheck(LockCheck):
             results.update(r_)
             stats = common.merge_stats(stats, st_)
             allscen.update({k: (cap, v) for k, v in bycap[cap].items()})
+        if self.tier == 'thorough':
+            # a batch on an AddressSanitizer + UBSan build (largest capacity), other seed
+            try:
+                cap = self.caps[-1]
+                exe_san = common.build_harness('thread', nthread=cap, sanitize=True)
+                san = {}
+                for s_ in gen_thread.make_scenarios(self.seed + 104729, max(40, n // 4), f'asan{cap}-', cap, kinds=self.kinds,
+                                                    long_share=self.long_share, seq_share=self.seq_share,
+                                                    deep_share=max(0.2, self.deep_share)):
+                    san[s_.split()[1]] = s_
+                r3, st3 = common.run_scenarios(exe_san, list(san.values()))
+                results.update(r3)
+                stats = common.merge_stats(stats, st3)
+                allscen.update({k: (cap, v) for k, v in san.items()})
+                exes = dict(exes)
+                self.cov['sanitizer_scenarios'] = len(r3)
+            except FrameworkError as e:
+                self.cov['sanitizer_build_error'] = str(e)[-500:]
         failures, mismatches = [], []
         ok_count = 0
         for sid in sorted(results):
@@ -566,6 +610,9 @@ class ThreadCheck(LockCheck):
                 failures.append((r['steps'], sid, msg))
             if r['corr'] != 'ok':
                 mismatches.append({'scenario_id': sid, 'detail': r['corr'][:500]})
+            elif not msg and (r['end'].startswith('crash') or r['end'] == 'hang'):
+                mismatches.append({'scenario_id': sid, 'detail': 'the implementation ended with ' + r['end'] +
+                                   ' under the harness (the model finishes this scenario)'})
             if r['corr'] == 'ok' and r['end'] == 'ok':
                 ok_count += 1
         missing = [sid for sid in allscen if sid not in results]
@@ -735,7 +782,7 @@ class C20(ThreadCheck):
     long_share = 0.2
     deep_share = 0.08
     caps = [2, 3, 4]
-    counts = {'quick': 150, 'thorough': 4000}
+    counts = {'quick': 150, 'thorough': 12000}
 
 
 # =====================================================================================================
